@@ -63,8 +63,13 @@ pub fn c05() -> DiffProp {
 pub fn c06() -> DiffProp {
     DiffProp {
         id: "C06",
-        families: vec![Fam::profile("scopes", profiles::c06(), 100_000, 800_000, 700)],
-        rule: "cases: generated programs (profile c06: nested blocks, functions, lambdas and loops to depth 5, shadowing, closures stored in variables and called later, closures assigning captured variables, parameters and loop-body variables captured, global redefinition). Oracle: reference interpreter (variables are heap cells in persistent scope lists) vs yarel. Non-trivial: a variable was written from a call frame other than the one that declared it and a captured variable was read; distinct by program text.",
+        families: vec![
+            Fam::profile("scopes", profiles::c06(), 100_000, 800_000, 700),
+            // the same scoping shapes with fibers among them: closures created inside a fiber's body,
+            // before and after a yield, sharing the fiber's locals with each other and with the caller
+            Fam::profile("scopes_fibers", { let mut p = profiles::c06(); p.name = "c06f"; p.w_fiber = 5; p.w_try = 1; p }, 30_000, 250_000, 700),
+        ],
+        rule: "cases: generated programs (profile c06: nested blocks, functions, lambdas and loops to depth 5, shadowing, closures stored in variables and called later, closures assigning captured variables, parameters and loop-body variables captured, global redefinition; family scopes_fibers adds fibers whose bodies declare, capture and write variables across yields). Oracle: reference interpreter (variables are heap cells in persistent scope lists) vs yarel. Non-trivial: a variable was written from a call frame other than the one that declared it and a captured variable was read; distinct by program text.",
         nontrivial: nt_c06,
         floors: vec![("gen:shadow", 2000), ("gen:lambda", 3000), ("ev:captured_write", 300), ("ev:captured_read", 3000)],
         assumptions: vec![],
